@@ -4,7 +4,7 @@
 From Coq Require Import List Arith NArith ZArith Lia Bool String.
 From Coq Require Import ZifyN ZifyNat ZifyBool.
 From Mant Require Import Prim.R Prim.Bytes Model.SmbTypes Model.SmbBlocks Model.SmbLayout Model.SmbAnalysis
-  Model.SmbSafe Spec.C06 Proofs.C06Layout Proofs.C06Strings Proofs.C06Fixed Proofs.C06Blocks.
+  Model.SmbSafe Model.SmbDialects Spec.C06 Proofs.C06Layout Proofs.C06Strings Proofs.C06Fixed Proofs.C06Blocks Proofs.C05Proofs.
 Import ListNotations.
 Open Scope N_scope.
 
@@ -182,6 +182,39 @@ Proof.
   destruct (get_fields nmpipe_layout data 0); try discriminate. cbn [bind]. intros E. inversion E. lia.
 Qed.
 
+Lemma resume_key_bound data r n : resume_key_unmarshal data = Ok (r, n) -> n <= lenN data.
+Proof.
+  unfold resume_key_unmarshal. destruct (smb_string_unmarshal data) as [[s k]| |] eqn:Es; try discriminate. cbn [bind].
+  destruct (lenN (ss_buf s) <? 21); [discriminate|].
+  destruct (go_index (ss_buf s) 0); try discriminate. cbn [bind].
+  destruct (go_slice (ss_buf s) 1 17); try discriminate. cbn [bind].
+  destruct (go_slice (ss_buf s) 17 21); try discriminate. cbn [bind].
+  intros E. assert (k = n) by congruence. subst k. eapply string_consumed_bound; eassumption.
+Qed.
+
+Lemma find_zero_bound l : forall i z, find_zero l i = Some z -> i <= z /\ z < i + lenN l.
+Proof.
+  induction l as [|b l IHl]; intros i z0 Hf; [discriminate|]. cbn [find_zero] in Hf.
+  destruct (b =? 0).
+  - injection Hf as <-. rewrite lenN_cons. lia.
+  - apply IHl in Hf. rewrite lenN_cons. lia.
+Qed.
+
+Lemma dialects_loop_bound fuel : forall data pos acc ds k, pos <= lenN data ->
+  dialects_loop fuel data pos acc = Ok (ds, k) -> k <= lenN data.
+Proof.
+  induction fuel as [|f IH]; intros data pos acc ds k Hpos; [discriminate|]. cbn [dialects_loop].
+  destruct (N.ltb_spec pos (lenN data)) as [Hlt|]; [|intros E; assert (pos = k) by congruence; lia].
+  destruct (go_index data pos) as [fmt| |]; try discriminate. cbn [bind].
+  destruct (negb (fmt =? dialect_format)); [discriminate|].
+  destruct (find_zero (skipn (N.to_nat (pos + 1)) data) (pos + 1)) as [z|] eqn:Ez; [|discriminate].
+  apply find_zero_bound in Ez. assert (z < lenN data) by (unfold lenN in *; rewrite skipn_length in Ez; lia).
+  destruct (go_slice data (pos + 1) z); try discriminate. cbn [bind]. apply IH. lia.
+Qed.
+
+Lemma dialects_bound data ds k : dialects_unmarshal data = Ok (ds, k) -> k <= lenN data.
+Proof. apply dialects_loop_bound. lia. Qed.
+
 Lemma bind_pair_total {A B} (r : R (A * N)) (g : A -> N -> R B) :
   r <> Panic -> (forall a n, g a n <> Panic) -> (let* (a, n) := r in g a n) <> Panic.
 Proof. intros H1 H2. destruct r as [[a n]| |]; cbn [bind]; [apply H2|discriminate|congruence]. Qed.
@@ -200,6 +233,10 @@ Proof.
   { intros _. apply bind_pair_total; [apply fileattr_total|discriminate]. }
   destruct (String.eqb n "SMB_NMPIPE_STATUS"); cbn [orb].
   { intros _. apply bind_pair_total; [apply nmpipe_total|discriminate]. }
+  destruct (String.eqb n "SMB_RESUME_KEY"); cbn [orb].
+  { intros _. apply bind_pair_total; [apply resume_key_total|discriminate]. }
+  destruct (String.eqb n "Dialects"); cbn [orb].
+  { intros _. apply bind_pair_total; [apply dialects_total|discriminate]. }
   discriminate.
 Qed.
 
@@ -228,6 +265,12 @@ Proof.
   destruct (String.eqb n "SMB_NMPIPE_STATUS").
   { intros E. apply (bind_pair_ok _ (fun vs k => (FStruct [FInt (fv vs 0); FInt (fv vs 1)], k))) in E.
     destruct E as [s [k' [E1 E2]]]. inversion E2; subst. eapply nmpipe_bound; eassumption. }
+  destruct (String.eqb n "SMB_RESUME_KEY").
+  { intros E. apply (bind_pair_ok _ (fun r k => (rk_to r, k))) in E.
+    destruct E as [s [k' [E1 E2]]]. inversion E2; subst. eapply resume_key_bound; eassumption. }
+  destruct (String.eqb n "Dialects").
+  { intros E. apply (bind_pair_ok _ (fun ds k => (dialects_to ds, k))) in E.
+    destruct E as [s [k' [E1 E2]]]. inversion E2; subst. eapply dialects_bound; eassumption. }
   discriminate.
 Qed.
 
